@@ -73,6 +73,18 @@ def run(ctx):
                           # step-parameter update hook (residual balancing / a fixed schedule) that really changes it
                           "solver": ["default", "default", "rho", "balance", "schedule"][len(probs) % 5]})
         cfgs = [c for c in ctx.corpus if c.get("lens")] + [tu.gen_config(ctx.rng) for _ in range(5 if ctx.quick() else 50)]
+        # SHAPE COINCIDENCES: the side of the penalty matrix (N*W) equal to the number of clusters, to the number of
+        # sensors or to the window - where "what kind of thing was I handed" is decided by a length, a matrix and a
+        # per-cluster / per-sensor list look alike
+        coinc = [(2, 2, 4), (1, 3, 3), (3, 1, 3), (2, 1, 2), (1, 2, 2), (1, 4, 4), (2, 3, 6)]
+        ctx.rng.shuffle(coinc)
+        for (N_, W_, K_) in (coinc[:2] if ctx.quick() else coinc):
+            cc = tu.gen_config(ctx.rng, joint=(N_ + W_) % 2 == 0)
+            for k_ in ("dtype", "completion", "flat"):
+                cc.pop(k_, None)
+            cc.update({"N": N_, "W": W_, "K": K_, "regimes": min(4, K_), "limit": 2, "m": 2, "shape_coincidence": True})
+            cc["lens"] = [W_ - 1 + 30 * K_ + ctx.rng.randint(0, 20)] if not cc["joint"] else [W_ - 1 + 18 * K_, W_ - 1 + 14 * K_ + 3]
+            cfgs.append(cc)
     for c in probs:
         N, W = c["N"], c["W"]
         n = N * W
@@ -252,3 +264,5 @@ def run(ctx):
         if cfg_index % 2 == 1:
             fractional_after_integer()      # … or comes after calls in every other form
         ctx.count("end_to_end_configs")
+        if cfg.get("shape_coincidence"):
+            ctx.count("end_to_end_configs_with_NW_equal_K")
